@@ -1021,6 +1021,9 @@ def gen_C18(rng, tier):
             ops.insert(pos + 2, {"op": "connect_parallelroads", "dist": 1e9})
     if kind == "pickle" and rng.random() < 0.4 and len(labels) >= 4:
         d["linked"] = [[[labels[0], labels[1]], [[labels[2], labels[3]]]]]
+    if kind == "pickle" and rng.random() < 0.3:
+        # a map name is a name: dots, blanks and non-ASCII letters are allowed in file names
+        d["name"] = rng.choice(["city.north", "a.b.c", "my map", "v1.2", "räume", "store.pkl", ".hidden"])
     if kind == "pickle":
         # the writer keeps building on its own object after some dumps (the reopened copy is only read)
         for o in ops:
@@ -1082,7 +1085,8 @@ def eval_C18(doc):
                 if doc.get("linked"):
                     linked = {tuple(e): [tuple(f) for f in fs] for e, fs in doc["linked"]}
                 plant_stale(scratch, doc, bump)
-                m = InMemMap("store", use_latlon=latlon, use_rtree=False, index_edges=False, dir=scratch,
+                pname = doc.get("name", "store")
+                m = InMemMap(pname, use_latlon=latlon, use_rtree=False, index_edges=False, dir=scratch,
                              linked_edges=linked, **kw)
                 nodes, edges, dangling = {}, [], []
                 for i, op in enumerate(doc["ops"]):
@@ -1111,7 +1115,8 @@ def eval_C18(doc):
                             continue
                         before = battery(m, doc, sorted(nodes), list(edges), None)
                         m.dump()
-                        m2 = InMemMap.from_pickle(os.path.join(scratch, "store.pkl"))
+                        # "All files will be saved to the `dir` directory using the `name` as filename"
+                        m2 = InMemMap.from_pickle(os.path.join(scratch, pname + ".pkl"))
                         after = battery(m2, doc, sorted(nodes), list(edges), None)
                         dk = diff_battery(before, after)
                         if dk:
